@@ -4,6 +4,9 @@ package main
 
 import (
 	"fmt"
+	"go/token"
+	"go/types"
+	"strings"
 
 	"golang.org/x/tools/go/ssa"
 )
@@ -14,7 +17,7 @@ func init() {
 		Level:       "other",
 		Explanation: "Decides, independently of any schedule, the locking discipline the statement relies on: (R1) every function that takes the engine mutex takes it as its first action and releases it only by defer, and every exported engine method that reaches a membership write, a seat-manager assign/remove or a hand single action is such a function; (R2) the engine mutex is must-held (inter-procedural must-hold lockset over synchronous call edges, same receiver instance) at each of those writes/calls; (R3) every seat-map update, occupant-field store and seat-id / init-flag store in the seat manager is under the seat manager's write lock, and every function taking that lock uses Lock/defer Unlock; (R4) no function reachable synchronously on the same instance while a mutex is held re-acquires it. NOT decided: linearizability of the resulting histories; races with the settlement goroutine and unlocked seat-manager readers (outside the statement).",
 		Rules: map[string]string{
-			"R1": "entry-lock idiom (Lock first, defer Unlock, no explicit Unlock) for every engine-mutex taker; exported methods reaching guarded sites are takers",
+			"R1": "entry-lock idiom (Lock first, defer Unlock, no explicit Unlock) for every engine-mutex taker; exported methods reaching guarded sites are takers; a struct that holds a mutex is never copied (pointer receivers only, never passed or loaded by value)",
 			"R2": "engine mutex must-held at every membership write / seat-manager assign-remove / hand single action (frozen exception: table creation)",
 			"R3": "seat manager: writes under the write lock; lock idiom in every taker",
 			"R4": "no re-entrant acquisition on the same instance along synchronous call edges",
@@ -29,6 +32,7 @@ func init() {
 func checkC16(c *Ctx) {
 	p := c.P
 	checkHandStateSync(c, "R5")
+	checkLockHoldersNeverCopied(c, "R1")
 	et := p.singleImpl("", "TableEngine")
 	smT := p.singleImpl("/seat_manager", "SeatManager")
 	if et == nil || smT == nil {
@@ -343,4 +347,85 @@ func lockIdiom(p *Prog, f *ssa.Function, key, lock, unlock string) (bool, string
 		return false, "no deferred " + unlock + " in the entry block"
 	}
 	return true, ""
+}
+
+// checkLockHoldersNeverCopied: a struct of the module that holds a sync.Mutex / sync.RWMutex is never copied —
+// no method with a value receiver, no parameter or result of the struct type, no load of the whole struct.
+// A method that locks "its" mutex on a copy of the struct excludes nobody: every other state is reached through
+// the copied pointers, so sequential behaviour is unchanged and only concurrent callers notice.
+func checkLockHoldersNeverCopied(c *Ctx, rule string) {
+	p := c.P
+	holders := map[*types.Named]bool{}
+	for _, pk := range p.AllPkgs {
+		if !(pk.PkgPath == modPath || strings.HasPrefix(pk.PkgPath, modPath+"/")) || pk.Types == nil {
+			continue
+		}
+		sc := pk.Types.Scope()
+		for _, nme := range sc.Names() {
+			tn, ok := sc.Lookup(nme).(*types.TypeName)
+			if !ok {
+				continue
+			}
+			n, _ := tn.Type().(*types.Named)
+			if n == nil {
+				continue
+			}
+			st, _ := n.Underlying().(*types.Struct)
+			if st == nil {
+				continue
+			}
+			for i := 0; i < st.NumFields(); i++ {
+				if ts := st.Field(i).Type().String(); ts == "sync.Mutex" || ts == "sync.RWMutex" {
+					holders[n] = true
+				}
+			}
+		}
+	}
+	isHolder := func(t types.Type) *types.Named {
+		n, _ := t.(*types.Named)
+		if n != nil && holders[n] {
+			return n
+		}
+		return nil
+	}
+	c.Count("lock_holding_structs", len(holders))
+	bad := 0
+	for _, f := range p.Funcs {
+		if !inModule(p, f) {
+			continue
+		}
+		if r := f.Signature.Recv(); r != nil {
+			if n := isHolder(r.Type()); n != nil {
+				bad++
+				c.Bad(rule, "lock-holder-copied:receiver:"+fnName(f), p.Pos(f.Pos()), fmt.Sprintf("%s has a value receiver of type %s, which holds a mutex: the method locks a private copy and excludes no other caller", fnName(f), canonTypeName(n.Obj())))
+			}
+		}
+		for _, prm := range f.Params {
+			if f.Signature.Recv() != nil && prm == f.Params[0] {
+				continue
+			}
+			if n := isHolder(prm.Type()); n != nil {
+				bad++
+				c.Bad(rule, "lock-holder-copied:param:"+fnName(f), p.Pos(f.Pos()), fmt.Sprintf("%s takes a %s by value: the mutex inside is copied", fnName(f), canonTypeName(n.Obj())))
+			}
+		}
+		for _, b := range f.Blocks {
+			for _, in := range b.Instrs {
+				u, ok := in.(*ssa.UnOp)
+				if !ok || u.Op != token.MUL {
+					continue
+				}
+				if n := isHolder(u.Type()); n != nil {
+					bad++
+					c.Bad(rule, "lock-holder-copied:load:"+fnName(f), p.InstrPos(in), fmt.Sprintf("%s copies a whole %s (and the mutex inside it)", fnName(f), canonTypeName(n.Obj())))
+				}
+			}
+		}
+	}
+	if bad == 0 {
+		c.Ok(rule, "lock-holder-never-copied", "-", fmt.Sprintf("%d mutex-holding structs: pointer receivers only, never passed, returned or loaded by value", len(holders)))
+	}
+	if len(holders) < 3 {
+		c.Bad(rule, "lock-holder-never-copied:instances", "-", fmt.Sprintf("only %d mutex-holding structs found (engine, seat manager and hand wrapper expected)", len(holders)))
+	}
 }
